@@ -22,7 +22,7 @@ pub enum Op {
 }
 
 impl Op {
-    fn name(&self) -> String {
+    pub fn name(&self) -> String {
         match self {
             Op::Adv(d) => format!("advance({d:?})"),
             Op::Set(s) => format!("set_state({s:?})"),
@@ -51,7 +51,7 @@ fn kf(pos: f32, a: Option<f32>, k: Option<i32>, d: Option<f64>, e: Option<u8>) -
     Kf { pos, a, k, d, easing: e }
 }
 
-/// 21 shapes; `variant` 0 uses Linear/custom polynomial easings, 1 uses built-in Bezier easings
+/// 22 shapes; `variant` 0 uses Linear/custom polynomial easings, 1 uses built-in Bezier easings
 /// (Ease / InOutCubic / OutBack) in the same places.
 pub fn pool(variant: u8) -> Vec<(&'static str, Vec<TlSpec>)> {
     if variant == 2 {
@@ -116,6 +116,8 @@ pub fn pool(variant: u8) -> Vec<(&'static str, Vec<TlSpec>)> {
         ),
         // a property keyed only in the 0% keyframe (its single frame is both the start frame and the last frame)
         ("k-only-at-0%", vec![one(vec![kf(0.0, Some(-10.0), Some(77), Some(4.5), None), kf(1.0, Some(50.0), None, None, None)], e(1), t(1.0, 0.0, Rep::None, false))]),
+        // 17 keyframes over 16 s (zig-zag values): a single long frame jumps over many keyframes
+        ("seventeen-keyframes-16s", vec![one((0..=16).map(|i| kf(i as f32 / 16.0, Some(((i * 37) % 64) as f32 * 4.0 - 100.0), if i % 3 == 0 { Some((i as i32 * 53) % 200 - 100) } else { None }, None, None)).collect(), e(0), t(16.0, 0.0, Rep::None, false))]),
         // a very slow eased timeline: one 2^-9 s step moves the position by less than f32::EPSILON
         ("slow-eased-32768s", vec![one(vec![kf(0.0, Some(0.0), Some(0), None, None), kf(1.0, Some(1000.0), Some(1_000_000), None, None)], e(1), t(32768.0, 0.0, Rep::None, false))]),
         // timelines without any keyframe still have a duration: the state counts as animated until it is over
@@ -804,6 +806,47 @@ fn check_selfconsistency(cfg: &Config, init: S4, h: &[Op], rank: u64, acc: &mut 
     }
 }
 
+/// C04 companion: many non-representable steps (0.1 s, 1/60 s, 0.3 s, 1/3 s) in an animated state, then a round trip
+/// through an un-animated state: freezing and resuming must not move the values (bit-exact) - whatever clock the
+/// animator keeps, the resume must land on the very time the last advance evaluated.
+fn c04_drift(acc: &mut Acc) {
+    let steps = [0.1f32, 1.0 / 60.0, 0.3, 1.0 / 3.0];
+    let np = pool(0).len() - 1;
+    let r = par_fold(
+        np * 2,
+        Acc::default,
+        |i, acc| {
+            let (xi, variant) = (i / 2, (i % 2) as u8);
+            let cfg = Config::new(xi, (xi + 3) % np, variant);
+            acc.configs += 1;
+            for (si, &s) in steps.iter().enumerate() {
+                for n in 1..=40usize {
+                    let mut a = cfg.build(S4::X);
+                    for _ in 0..n {
+                        a.advance(s);
+                    }
+                    a.set_state(&S4::U1);
+                    let pre = a.current_values().clone();
+                    a.set_state(&S4::X);
+                    let post = a.current_values().clone();
+                    acc.histories += 1;
+                    acc.ops += n as u64 + 2;
+                    acc.checks += 1;
+                    acc.nontrivial += 1;
+                    if pre.bits() != post.bits() {
+                        acc.sink.add("jump:resume-after-many-small-steps", (5u64 << 56) | (i as u64) << 32 | (si as u64) << 8 | n as u64, || {
+                            (format!("{n} x advance({s}), set_state(U1), set_state(X): values moved from {:?} to {:?} at the resuming set_state | X = {} variant {variant}", pre, post, cfg.names[0]), json!({"config": cfg.to_json(), "step": s, "steps": n}))
+                        });
+                        break;
+                    }
+                }
+            }
+        },
+        merge,
+    );
+    merge(acc, r);
+}
+
 /// C05 companion: an animator built WITHOUT `from_values` must behave exactly like one built with
 /// `from_values(Default::default())` (the documented meaning of omitting it): all histories up to depth 4 on
 /// every pool shape as the initial state's timeline, every observation bit-identical.
@@ -1324,6 +1367,9 @@ pub fn run(run: Run, prop: Prop) -> ! {
     if prop == Prop::C05 {
         c05_omitted_from_values(&mut acc);
     }
+    if prop == Prop::C04 {
+        c04_drift(&mut acc);
+    }
     let id = format!("{prop:?}");
     let mut cov = Map::new();
     cov.insert("states".into(), json!(acc.histories));
@@ -1331,7 +1377,7 @@ pub fn run(run: Run, prop: Prop) -> ! {
     cov.insert("traces_validated_against_impl".into(), json!(acc.histories));
     cov.insert("evaluations".into(), json!(acc.checks));
     cov.insert("distinct_nontrivial".into(), json!(acc.nontrivial));
-    cov.insert("rule".into(), json!(format!("{} animator configurations (X and Y timelines from a pool of 21 shapes: finite, to-only, mid-keyframe-only, delayed, Times 1, reversing, infinite, infinite-reversing-delayed, merged disjoint finite+infinite, merged overlapping, partial, empty merged list, infinite with delay = cycle, delayed Times 2, merged endless + delayed Times 1 reversing with one cycle length, merged short Times 2 + long non-repeating, a property keyed only at 0%, a 32768 s eased timeline, keyframe-less 2 s, merged finite + longer keyframe-less, negative delay (not in C04 runs); two un-animated states (in every 4th configuration - thorough: an extra copy of every configuration - U2 is a third animated state, so A -> B -> C -> A histories occur); Linear/polynomial or built-in Bezier easings; non-default initial values; initial state X or U1) x ALL histories of length 1..={} over the alphabet [{}] (a state is the history: the real animator is rebuilt and replayed; clauses are evaluated on the last operation of each history, so every operation of every history is checked once) + deviation-bounded pass: default advance(1/4), all histories of length <= {} with <= {} deviations + de-duplicating breadth-first pass keyed on the complete mutable state (counts under bfs_pass; a capped level is reported, everything below the cap depth is complete). {}", cfgs.len(), depth, ops.iter().map(|o| o.name()).collect::<Vec<_>>().join(", "), dev_len, dev_k, match prop {
+    cov.insert("rule".into(), json!(format!("{} animator configurations (X and Y timelines from a pool of 22 shapes: finite, to-only, mid-keyframe-only, delayed, Times 1, reversing, infinite, infinite-reversing-delayed, merged disjoint finite+infinite, merged overlapping, partial, empty merged list, infinite with delay = cycle, delayed Times 2, merged endless + delayed Times 1 reversing with one cycle length, merged short Times 2 + long non-repeating, a property keyed only at 0%, 17 keyframes over 16 s, a 32768 s eased timeline, keyframe-less 2 s, merged finite + longer keyframe-less, negative delay (not in C04 runs); two un-animated states (in every 4th configuration - thorough: an extra copy of every configuration - U2 is a third animated state, so A -> B -> C -> A histories occur); Linear/polynomial or built-in Bezier easings; non-default initial values; initial state X or U1) x ALL histories of length 1..={} over the alphabet [{}] (a state is the history: the real animator is rebuilt and replayed; clauses are evaluated on the last operation of each history, so every operation of every history is checked once) + deviation-bounded pass: default advance(1/4), all histories of length <= {} with <= {} deviations + de-duplicating breadth-first pass keyed on the complete mutable state (counts under bfs_pass; a capped level is reported, everything below the cap depth is complete). {}", cfgs.len(), depth, ops.iter().map(|o| o.name()).collect::<Vec<_>>().join(", "), dev_len, dev_k, match prop {
         Prop::C04 => "Oracle: current_values bit-identical before/after every set_state; same-state set_state leaves time, pause record and is_ended unchanged. non-trivial = set_state calls that change the state",
         Prop::C05 => "Oracle: RefAnimator stepped alongside (current_state, time in state via hook, live pause record via hook, values = state's merged timeline started from the values observed at entry, evaluated at the time in state; un-animated fields bit-identical). non-trivial = operations after which the current state animates at least one property",
         Prop::C06 => "Companion: every sequence of 2..5 non-representable steps (0.1,0.2,0.3,1/3,0.7) vs one advance of their f32 sum, values within float rounding (1e-3 of the value scale; sequences ending within 2e-5 s of a reference discontinuity skipped). Oracle: the history and its normal form (consecutive advances merged, zero advances and same-state changes dropped) end with bit-identical values, state and is_ended; advance(0) is a no-op. non-trivial = histories that differ from their normal form",
